@@ -325,3 +325,80 @@ def hook_receiver(ctx: Ctx, modules: Iterable[str], rule: str = "E8.hook-receive
                                    f"{m.qualname}(): the hook registered on self is bound to this instance ({bad}); shallow copies share "
                                    f"the hook table and would update the original instead of themselves", node=node)
     ctx.floor(rule, 1)
+
+
+# ------------------------------------------------------------------------------------------------ refresh-before-read in update()
+def _reads_parameters(prog, ci, meth_name: str, seen: Set[str]) -> bool:
+    """Does self.<meth_name>() — resolved in the concrete class — read the current parameters (self.data() / the 'p' buffer / self.params),
+    directly or through other methods of self?"""
+    if meth_name in seen:
+        return False
+    seen.add(meth_name)
+    fi = prog.find_method(ci, meth_name)
+    if fi is None:
+        return False
+    if meth_name in ("data", "_data"):
+        return True
+    for node in walk_no_nested(fi.node):
+        if isinstance(node, ast.Attribute) and isinstance(node.value, ast.Name) and node.value.id == "self" and node.attr in ("p", "params"):
+            return True
+        if isinstance(node, ast.Call) and isinstance(node.func, ast.Name) and node.func.id == "getattr" and len(node.args) >= 2 \
+                and isinstance(node.args[0], ast.Name) and node.args[0].id == "self" and isinstance(node.args[1], ast.Constant) \
+                and node.args[1].value in ("p", "params"):
+            return True
+        if isinstance(node, ast.Call) and isinstance(node.func, ast.Attribute) and isinstance(node.func.value, ast.Name) \
+                and node.func.value.id == "self" and _reads_parameters(prog, ci, node.func.attr, seen):
+            return True
+    return False
+
+
+def update_order(ctx: Ctx, modules: Iterable[str], rule: str = "E8.update-order") -> None:
+    ctx.rule(rule, "typestate of the predicted-parameter buffer: ParametricTransform.update() is what calls the parameter-predicting callable "
+                   "(or reads the linked transform) and stores the result as buffer 'p'. In the update() of every model built on it, each "
+                   "statement that evaluates the model from its parameters (a self-method that reaches self.data() / 'p' / self.params) comes "
+                   "*after* the super().update() call on every path — evaluated before, the buffers (and their autograd graph) belong to the "
+                   "previous prediction")
+    prog = ctx.prog
+    base = prog.cls("deepali.spatial.parametric", "ParametricTransform")
+    bu = prog.find_method(base, "update")
+    ctx.require(bu is not None and any(isinstance(n, ast.Call) and isinstance(n.func, ast.Attribute) and n.func.attr == "register_buffer"
+                                       and n.args and isinstance(n.args[0], ast.Constant) and n.args[0].value == "p"
+                                       for n in ast.walk(bu.node)),
+                "positive control failed: ParametricTransform.update() no longer registers the buffer 'p' (anchor of E8.update-order)")
+    ctx.fn(bu)
+    n = 0
+    for mod in modules:
+        mi = prog.modules[mod]
+        for ci in mi.classes.values():
+            m = ci.methods.get("update")
+            if m is None or ci is base or not any(c is base for c in prog.mro(ci)):
+                continue
+            body = [st for st in m.node.body if not (isinstance(st, ast.Expr) and isinstance(st.value, ast.Constant))]
+
+            def has_super_update(st):
+                return any(isinstance(x, ast.Call) and isinstance(x.func, ast.Attribute) and x.func.attr == "update"
+                           and isinstance(x.func.value, ast.Call) and isinstance(x.func.value.func, ast.Name) and x.func.value.func.id == "super"
+                           for x in ast.walk(st))
+            idx = [i for i, st in enumerate(body) if has_super_update(st)]
+            if not idx:
+                continue  # does not chain to the base update: nothing to order (E8.gradient-path covers its value path)
+            ctx.fn(m)
+            first = idx[0]
+            readers = []
+            for i, st in enumerate(body):
+                for x in ast.walk(st):
+                    if isinstance(x, ast.Call) and isinstance(x.func, ast.Attribute) and isinstance(x.func.value, ast.Name) \
+                            and x.func.value.id == "self" and x.func.attr != "register_buffer" and _reads_parameters(prog, ci, x.func.attr, set()):
+                        readers.append((i, x))
+            if not readers:
+                continue
+            for i, call in readers:
+                n += 1
+                ok = i > first or (i == first and False)
+                ctx.ob(rule, f"{m.key}:{ast.unparse(call)[:60]}", ok, {"statement": i, "super_update_at": first})
+                if not ok:
+                    ctx.report(rule, m, f"class={ci.name} reader={ast.unparse(call.func)}",
+                               f"{m.qualname}(): {ast.unparse(call)[:80]} evaluates the model from its parameters before super().update() has "
+                               f"refreshed the predicted / linked parameter buffer 'p': the buffered field is computed from the previous "
+                               f"prediction and carries its (stale) autograd graph", node=call)
+    ctx.floor(rule, 4)
